@@ -61,3 +61,31 @@ PROPS["C04"] = dict(
     assumptions=["model truth (what each host's store holds, which reads are still pending) is the simulated cluster's, not the controller's belief",
                  "a purge at the *target* of a pending transfer is legal (counted as probe purge_at_pending_target); a purge at the source of a pending read is the violation"],
 )
+
+REAL_CLUSTER = ["cascade.executor.{bridge,comms,serde,msg,executor,data_server}", "cascade.executor.runner.{entrypoint,runner,memory,packages}",
+                "cascade.controller.{impl,notify,act,report}", "cascade.scheduler.*", "cascade.shm.{api,client,server,dataset,algorithms,disk}", "cascade.low.*"]
+STUB_CLUSTER = ["zmq (simulated network: atomic multipart, per-link FIFO, no cross-link order, drop/dup only on Syn/Ack frames)",
+                "UDP loopback sockets", "multiprocessing fork context (processes are baton threads)", "multiprocessing.shared_memory.SharedMemory",
+                "ThreadPoolExecutor/wait", "time/sleep (virtual clock)", "uuid4", "atexit/signal/logging.config", "subprocess findmnt",
+                "cluster launcher glue of cascade.benchmarks.__main__ (4 lines re-written in the harness)"]
+
+CL_FREE = dict(name="cl-free", harness="cluster", weight=3, runs=dict(quick=1500, thorough=40000), opts=dict(lossy=False, jitter=True))
+PROPS["C01"]["groups"].append(CL_FREE)
+PROPS["C02"]["groups"].append(CL_FREE)
+PROPS["C03"]["groups"].append(CL_FREE)
+PROPS["C04"]["groups"].append(CL_FREE)
+for _p in ("C01", "C02", "C03", "C04"):
+    PROPS[_p]["real"] = REAL_CTL + ["cluster harness: " + ", ".join(REAL_CLUSTER)]
+    PROPS[_p]["stub"] = STUB_CTL + ["cluster harness: " + ", ".join(STUB_CLUSTER)]
+
+
+_LT = {
+ "C01": "seeded exploration of (job, cluster shape, requested outputs, delivery schedule): every run must return exactly the reference interpreter's values; ctl harness (real controller+scheduler+runner vs model cluster) for volume, cluster harness (everything real on the simulated network) for the integrated path",
+ "C02": "seeded exploration; the model Bridge is the monitor for the controller half (dispatch exactly once, free worker, GPU, inputs produced and present-or-in-transfer); the cluster harness checks the worker half (inputs completely written on the host when a sequence starts; one execution per task)",
+ "C03": "seeded exploration of fair delivery orders over wide shapes; oracles: run returns, shutdown exactly once, no wait with nothing outstanding, no spin (watchdog), no bookkeeping exception, bounded rounds and commands",
+ "C04": "seeded exploration; oracle at the Bridge seam against model truth (who holds what, which reads are pending); cluster harness reports the physical consequence (transmit failure / data-server crash)",
+}
+_LN = "Trusted base: the simulator (kernel, fakes, model Bridge) and the reference interpreter; sampling, not enumeration - a clean batch is evidence, not proof; zmq/UDP/shm fakes model the documented guarantees of the real transports (DESIGN.md section 12)"
+for _p, _t in _LT.items():
+    PROPS[_p]["level_text"] = _t
+    PROPS[_p]["level_note"] = _LN
